@@ -57,12 +57,20 @@ def judge(ctx, cases, tag):
     lazy = [dict(c, id=c["id"] + LAZY_OFF) for c in cases]
     obs2 = ctx.run_exec("picslazy", lazy, tag + "-lazy")
     ctx.traces -= len(cases)  # the same behaviours, executed in two variants
+    # the judge remembers the first behaviour that shows a signature: put short behaviours first
     both = os.path.join(ctx.work, tag + ".obs.both.ndjson")
+    groups = []
+    for p in (obs1, obs2):
+        with open(p) as f:
+            for line in f:
+                if len(line) < 80 and '"ev":"reset"' in line:
+                    groups.append([line])
+                else:
+                    groups[-1].append(line)
+    order = sorted(range(len(groups)), key=lambda i: (len(groups[i]), i))
     with open(both, "w") as out:
-        for p in (obs1, obs2):
-            with open(p) as f:
-                for line in f:
-                    out.write(line)
+        for i in order:
+            out.writelines(groups[i])
     ctx.cases_by_tag[tag] = {c["id"]: c for c in cases}
     ctx.cases_by_tag[tag].update({c["id"]: c for c in lazy})
     res = ctx.tlc_trace("Pics_Trace.tla", "Pics_Trace.cfg", both, tag)
